@@ -97,6 +97,9 @@ struct NodeSpec {
 fn gen_dag(rng: &mut Rng, n: usize, hostile: bool) -> Vec<NodeSpec> {
     let mut nodes: Vec<NodeSpec> = vec![];
     let ts_span = rng.range(1, 4);
+    // a third of the DAGs carry timestamps far ahead of any evaluator's wall clock (year 2100):
+    // the evaluation order must be a function of the changes alone, not of "now"
+    let ts_base: u64 = if rng.chance(1, 3) { 4_102_444_800 } else { 1000 };
     for i in 0..n {
         let mut parents = vec![];
         if i > 0 {
@@ -116,7 +119,7 @@ fn gen_dag(rng: &mut Rng, n: usize, hostile: bool) -> Vec<NodeSpec> {
         let plain = hostile && i > 0 && rng.chance(1, 10);
         nodes.push(NodeSpec {
             parents,
-            ts: 1000 + rng.below(ts_span),
+            ts: ts_base + rng.below(ts_span),
             actor: rng.below(N_ACTORS as u64) as usize,
             bad_sig: rng.chance(1, if hostile { 6 } else { 15 }),
             payload: match rng.below(10) {
